@@ -541,7 +541,7 @@ class LSrkmodelHH(timemodel):
             self.calcrhs(pfield)  # result in self.residual
             # substep
             pfield = field.copy()
-            self.add_res(pfield, dtloc*beta, beta) # beta is the subtimecoef
+            self.add_res(pfield, dtloc*beta) # substep dt*beta already carries the subtime coefficient beta
         field.set(pfield)
         return
 
